@@ -128,9 +128,20 @@ def run_evaluator_scenario(scn):
     vloop.QUANTUM = 1e-4
     vt = vloop.install()
     vt.reset()
-    _G.update(specs=[tuple(s) for s in scn["specs"]], runlog={}, clock=vt.now, hpo=False)
+    hpo = bool(scn.get("hpo"))
+    _G.update(specs=[tuple(s) for s in scn["specs"]], runlog={}, clock=vt.now, hpo=hpo)
     st = _log_storage()
     ev = Evaluator.create(_run_async, method="serial", method_kwargs={"num_workers": scn["W"], "storage": st})
+    tmp = None
+    if hpo:
+        # a Search built around the evaluator makes its jobs HPOJobs (close() then reports "F_CANCELLED"); the
+        # evaluator is still driven by hand, as in a manual ask/tell loop
+        from deephyper.hpo import HpProblem, RandomSearch
+
+        problem = HpProblem()
+        problem.add_hyperparameter((0.0, 10.0), "x")
+        tmp = tempfile.mkdtemp(prefix="c14_")
+        RandomSearch(problem, ev, random_state=1, log_dir=tmp)
     obs = {"ops": [], "error": None, "timeline": []}
     nsub = 0
     try:
@@ -163,7 +174,11 @@ def run_evaluator_scenario(scn):
             obs["ops"].append({"op": "settle", "now": _tick(vt.now())})
     except RuntimeError as e:
         obs["error"] = f"RuntimeError: {e}"[:200]
-    obs["results"] = [(_jid(j), j.status.name, j.output) for j in ev.jobs_done]
+    def _o(j):
+        o = j.output
+        return o["objective"] if isinstance(o, dict) and "objective" in o else o
+
+    obs["results"] = [(_jid(j), j.status.name, _o(j)) for j in ev.jobs_done]
     obs["final"] = {_jid(j): j.status.name for j in ev.jobs}
     obs["slog"] = list(st.slog)
     obs["runlog"] = {k: dict(v) for k, v in _G["runlog"].items()}
@@ -172,6 +187,8 @@ def run_evaluator_scenario(scn):
         ev.close()
     except Exception:
         pass
+    if tmp:
+        shutil.rmtree(tmp, ignore_errors=True)
     return obs
 
 
@@ -403,7 +420,7 @@ def lean_request(scn, obs, jobfirst=()):
                 ops.append({"op": "close", "rep": rec["new"]})
             elif k == "settle":
                 ops.append({"op": "settle"})
-        return {"W": scn["W"], "hpo": False, "specs": specs, "ops": ops}
+        return {"W": scn["W"], "hpo": bool(scn.get("hpo")), "specs": specs, "ops": ops}
     for c, rec in zip(scn["calls"], obs["calls"]):
         ops.append({"op": "search", "n": -1 if c.get("n") is None else c["n"], "strict": bool(c.get("strict")),
                     "timeout": c.get("t"), "reps": rec["reps"], "drain": rec["drain"], "delays": list(c.get("delays") or [])})
@@ -583,6 +600,74 @@ def oracle(scn, obs):
     return bad
 
 
+# clauses of the Python oracle that the verified checker (`checkStatusLog`, theorem C14_checker) also decides
+CHECKER_CLAUSES = {
+    "status-not-monotone": "monotone", "reported-twice": "once", "submitted-job-missing-from-results": "complete",
+    "non-terminal-status-reported": "terminal", "no-timeout-but-cancelled": "classified",
+    "finished-before-deadline-not-DONE": "classified", "running-at-deadline-never-saw-CANCELLING": "classified",
+    "running-at-deadline-not-CANCELLED": "classified", "started-after-deadline-not-CANCELLED": "classified",
+    "started-after-deadline-never-saw-CANCELLING": "classified", "value-not-kept": "classified",
+}
+_RT_NUMBERS = {  # real time: ticks that put a job into the class the robust classification found
+    "none": dict(start=0, ret=1, natEnd=1, deadline=None), "before": dict(start=0, ret=1, natEnd=1, deadline=3),
+    "after": dict(start=0, ret=3, natEnd=5, deadline=2), "late": dict(start=5, ret=6, natEnd=9, deadline=1),
+    "either": dict(start=0, ret=2, natEnd=2, deadline=2),
+}
+
+
+def build_obs(scn, obs):
+    """the observation handed to the verified checker: one record per submitted job (index = job id) built from
+    the implementation's status-write log, the run-function's own record and the result table"""
+    if obs.get("error") or obs.get("slog") is None:
+        return None
+    serial = scn.get("backend", "serial") == "serial"
+    specs = scn["specs"]
+    runlog = obs["runlog"]
+    if scn["level"] == "search":
+        rows = obs["calls"][-1]["rows"] if obs["calls"] else []
+        reported = [(r["id"], r["status"], r["objective"]) for r in rows]
+        complete = True
+    else:
+        reported = list(obs["results"])
+        ops = scn["ops"]
+        last_sub = max([k for k, o in enumerate(ops) if o["op"] == "submit"] + [-1])
+        complete = any(o["op"] == "gather" and o.get("all") and k > last_sub for k, o in enumerate(ops)) and \
+            all(r.get("err") is None for r in obs["ops"] if r["op"] == "gather")
+    closed_inflight = set()
+    if scn["level"] == "evaluator":
+        for rec in obs["ops"]:
+            if rec["op"] == "close":
+                closed_inflight |= {i for i in rec["new"] if i not in runlog or "ret" not in runlog[i]}
+    rep_status = {i: (s_, o_) for i, s_, o_ in reported}
+    nsub = max([i for i, _ in obs["slog"]] + [r[0] for r in reported] + [-1]) + 1
+    logs = _logs_of(obs, nsub)
+    jobs = []
+    for i in range(nsub):
+        m, p = specs[i] if i < len(specs) else (0, 1)
+        rl = runlog.get(i)
+        fin = rep_status.get(i)
+        gathered = fin is not None and i not in closed_inflight and rl is not None and "ret" in rl
+        rec = dict(log=logs.get(i, []), start=0, ret=0, natEnd=0, deadline=None, saw=False, pollsAgain=False, tie=False,
+                   gathered=bool(gathered), valueKept=True)
+        if rl is not None:
+            rec["saw"] = bool(rl["reads"]) and rl["reads"][-1][1] == "CANCELLING"
+            if serial:
+                dl = _deadline_for(obs["timeline"], rl["start"])
+                st = _tick(rl["start"])
+                rec.update(start=st, ret=_tick(rl["ret"]) if "ret" in rl else st, natEnd=st + m * p,
+                           deadline=None if dl is None else _tick(dl), pollsAgain=bool(m >= 1 and p >= 1))
+            else:
+                cl, _, _ = _realtime_class(scn, obs, i, rl)
+                rec.update(_RT_NUMBERS[cl], tie=cl == "either", pollsAgain=bool(m * p * scn["unit"] >= 0.5))
+        if gathered:
+            try:
+                rec["valueKept"] = float(fin[1]) == float(i)
+            except Exception:
+                rec["valueKept"] = False
+        jobs.append(rec)
+    return {"op": "checklog", "jobs": jobs, "results": [i for i, _, _ in reported], "complete": bool(complete)}
+
+
 def fingerprint(clause, entry, scn):
     if scn["level"] == "search":
         ks = [call_kind(c) for c in scn["calls"]]
@@ -725,7 +810,11 @@ def gen_evaluator(ck, n):
             specs = _specs_around(rng, total, c, W)
             if pat == "batch2":
                 specs = [[min(m, 3), p] for m, p in specs]  # gather("BATCH", k>=2) busy-spins: keep it short
-        out.append({"level": "evaluator", "backend": "serial", "W": W, "specs": specs, "ops": ops, "src": "evaluator:" + pat})
+        scn = {"level": "evaluator", "backend": "serial", "W": W, "specs": specs, "ops": ops, "src": "evaluator:" + pat}
+        if pat in ("batch-close", "close-only", "all") and rng.random() < 0.4:
+            scn["hpo"] = True  # HPOJobs: close() with jobs in flight reports "F_CANCELLED"
+            scn["src"] += ":hpo"
+        out.append(scn)
     # a gather with nothing submitted
     out.append({"level": "evaluator", "backend": "serial", "W": 1, "specs": [], "ops": [{"op": "submit", "k": 0}, {"op": "gather", "all": False, "size": 1}], "src": "evaluator:malformed"})
     return out
@@ -897,7 +986,7 @@ def _tie_jobs(rep):
 
 
 def _case_of(scn, obs=None):
-    case = {k: scn[k] for k in ("level", "backend", "W", "specs", "ops", "calls", "unit") if k in scn}
+    case = {k: scn[k] for k in ("level", "backend", "W", "specs", "ops", "calls", "unit", "hpo") if k in scn}
     if scn["level"] == "search" and obs is not None:
         used = [i for i in obs.get("runlog", {})] + [0]
         case["specs"] = case["specs"][: max(used) + 4]  # the run-functions of the jobs that ran (+ a few)
@@ -912,10 +1001,34 @@ def _check_one(ck, scn, obs, drv, do_shrink=True):
     ck.count("src:" + scn["src"])
     ck.count(f"W={scn['W']}")
     serial = scn["backend"] == "serial"
-    # ---- L3
-    fails = oracle(scn, obs)
+    # ---- L3: the verified checker on the real logs decides; the Python oracle is a cross-check (and supplies the
+    # clause name / the clauses outside the checker: raises, does-not-return, returns-later, cancelled-without-cancelling)
+    py_bad = oracle(scn, obs)
+    req = build_obs(scn, obs)
+    if req is None:
+        ck.count("checker:not-applicable(no status log)")
+        fails = py_bad
+    else:
+        rep = drv.ask(req)
+        ck.count("checker:ok" if rep["check"] else "checker:false")
+        py_core = [b for b in py_bad if b[0] in CHECKER_CLAUSES]
+        py_extra = [b for b in py_bad if b[0] not in CHECKER_CLAUSES]
+        fails = list(py_extra)
+        entry0 = "Search.search" if scn["level"] == "search" else "Evaluator.gather"
+        if not rep["check"]:
+            conj = next(k for k in ("monotone", "once", "complete", "terminal", "classified") if not rep[k])
+            agree = [b for b in py_core if CHECKER_CLAUSES[b[0]] == conj] or py_core
+            if agree:
+                fails.insert(0, agree[0])
+            else:
+                ck.count("checker:python-oracle-missed")
+                bad = rep.get("badClassified") if conj == "classified" else rep.get("badMonotone")
+                fails.insert(0, ("checker-" + conj, entry0, {"job": bad, "record": req["jobs"][bad] if isinstance(bad, int) else None}))
+        elif py_core:
+            ck.mismatch(case, {"oracle-disagreement": "Python oracle reports a clause the verified checker accepts",
+                               "python": py_core[:2], "checker": {k: rep[k] for k in ("monotone", "once", "complete", "terminal", "classified")}})
     for clause, entry, detail in fails[:1]:
-        s2 = shrink(scn, clause) if do_shrink else scn
+        s2 = shrink(scn, clause) if (do_shrink and not clause.startswith("checker-")) else scn
         o2 = obs if s2 is scn else run_scenario(s2)
         ck.fail(fingerprint(clause, entry, s2), f"{clause} ({entry})", _case_of(s2, o2), {"detail": detail, "unshrunk": case if s2 is not scn else None})
     if obs.get("error"):
@@ -1039,6 +1152,8 @@ def run(ck):
     real = gen_realtime(ck, ck.pick(5, 24), "thread") + gen_realtime_evaluator(ck, ck.pick(4, 16), "thread")
     if ck.thorough:
         real += gen_realtime(ck, 8, "process") + gen_realtime_evaluator(ck, 6, "process")
+    else:
+        real += gen_realtime_evaluator(ck, 1, "process")  # ProcessPoolEvaluator.execute at least once in quick
     if ck.thorough:
         import concurrent.futures as cf
 
